@@ -16,6 +16,7 @@ import FB.MakeRoom
 import FB.Conc
 import FB.ConcDirs
 import FB.ConcDirsF
+import FB.HeapDriver
 open FB FB.Wire
 open Lean (Json)
 
@@ -533,6 +534,7 @@ def handle (line : String) : Lean.Json :=
       | "rb" => runRB j
       | "md" => runMD j
       | "mr" => runMR j
+      | "heap" => FB.Heap.heapRequest j
       | k => throw s!"unknown kind {k}"
     match r with
     | .ok out => out.setObjVal! "id" id
